@@ -42,6 +42,7 @@ func main() {
 	imports := map[string][]string{} // import path -> files
 	pkgVars := map[string]string{}   // package-level var -> file
 	varWrites := []string{}
+	ctxLiveness := []string{} // uses of ctx.Err / ctx.Done / ctx.Deadline: whether the Go context is still live is a fact about the process
 	mapDecls := map[string]bool{}
 	scalarInts := map[string]int64{}  // value of the scalar package-level variables initialised by an integer literal
 	pkgScalars := map[string]bool{}   // package-level vars of a basic value type (only an assignment, ++/-- or & can change them)
@@ -217,6 +218,11 @@ func main() {
 					ast.Inspect(x.Body, func(n ast.Node) bool {
 						switch v := n.(type) {
 						case *ast.CallExpr:
+							if se, ok := v.Fun.(*ast.SelectorExpr); ok && len(v.Args) == 0 && (se.Sel.Name == "Err" || se.Sel.Name == "Done" || se.Sel.Name == "Deadline") {
+								if id, ok := se.X.(*ast.Ident); ok && (id.Name == "ctx" || id.Name == "goCtx" || id.Name == "c") && !strings.HasPrefix(rel, "x/cctp/client/") {
+									ctxLiveness = append(ctxLiveness, rel+":"+x.Name.Name+":"+id.Name+"."+se.Sel.Name)
+								}
+							}
 							if id, ok := v.Fun.(*ast.Ident); ok && id.Name == "copy" && len(v.Args) == 2 {
 								if nm, ok := isPkgVar(v.Args[0]); ok && x.Name.Name != "init" {
 									varWrites = append(varWrites, rel+":"+x.Name.Name+":copy("+nm+")")
@@ -495,6 +501,12 @@ func main() {
 		vw = append(vw, coqStr(x))
 	}
 	fmt.Fprintf(&sb, "Definition go_package_var_writes : list string := [%s].\n", strings.Join(vw, "; "))
+	sort.Strings(ctxLiveness)
+	var cl []string
+	for _, x := range ctxLiveness {
+		cl = append(cl, coqStr(x))
+	}
+	fmt.Fprintf(&sb, "\nDefinition go_context_liveness_uses : list string := [%s].\n", strings.Join(cl, "; "))
 	w("Scan.v", sb.String())
 	// CodecGo.v: the four codec functions translated into the representation of Gen/CodecIR.v
 	w("CodecGo.v", translateCodecs(*repo, ints))
